@@ -175,12 +175,14 @@ func (g *G) OverloadItem() Item {
 		fmt.Fprintf(&declG, "type %s struct {\n\tn int\n}\n\n", recvT)
 	}
 	// named candidates (Go side always; XGo side for ident/method/mixed styles)
+	// mixed style: a drawn subset of the candidates is named, at least one named and one literal
+	mixMask := 1 + g.Intn((1<<uint(k))-2, "mixmask")
 	named := func(i int) bool {
 		switch style {
 		case "inline":
 			return false
 		case "mixed":
-			return i%2 == 0
+			return mixMask>>uint(i)&1 == 1
 		}
 		return true
 	}
